@@ -298,6 +298,68 @@ fn flood_run(ch: &Ch, frame: usize, nframes: usize, consume: usize, unopened: bo
     ExecResult { obs: fx_hash(&(pulled, consumed)), violation, nontrivial: true, witnesses: vec![("mux_blocked_by_flow_control", (beyond > 0 && beyond < (nframes * (frame + 4)) as u64) as u64)] }
 }
 
+/// A raw peer that floods OPEN / CLOSE frames (sub-streams opened and closed without data) at a
+/// reusable stream that the application does not serve: control frames count against read_frame_count.
+pub fn control_flood_run(ch: &Ch, nframes: usize, accept_first: bool) -> ExecResult {
+    let res: Arc<Mutex<(u64, bool)>> = Default::default();
+    let res2 = res.clone();
+    let hs = mux_handshake(&[], &[(0, 1)]);
+    let hs_len = hs.len() as u64;
+    sched::run(ch, |idle| async move {
+        let clock = ctx::ManualClock::new();
+        let root = ctx::test_root(&clock);
+        let (pa, pb) = pipe::pair();
+        let pulled = pa.rx.clone();
+        let a0 = nv::VQueue::new(&root, 1, limiter::Rate::INF);
+        let m = nv::VMux::new(cfg(), vec![(0, a0.clone())], vec![]);
+        let mut script = hs.clone();
+        for i in 0..nframes {
+            // OPEN | CONNECT | stream 0, CLOSE | CONNECT | stream 0
+            script.extend_from_slice(&(if i % 2 == 0 { 0x2000u16 } else { 0xA000u16 }).to_le_bytes());
+        }
+        pipe::inject(&pb.tx, &script);
+        let (res, a0, root, idle2) = (&res2, &a0, &root, &idle);
+        let fut = async move { scope::run!(root, |ctx, s| async move {
+            s.spawn_bg(async move {
+                let _ = m.run(ctx, pa).await;
+                Ok(())
+            });
+            if accept_first {
+                s.spawn_bg(async move {
+                    // the application accepts one sub-stream and then just holds it
+                    let st = a0.open(ctx).await?;
+                    ctx.canceled().await;
+                    drop(st);
+                    anyhow::Ok(())
+                });
+            }
+            s.spawn(async move {
+                idle2.settle().await;
+                let p = pulled.lock().unwrap().read;
+                *res.lock().unwrap() = (p, true);
+                anyhow::Ok(())
+            });
+            anyhow::Ok(())
+        }).await };
+        let _keep = (pb, a0.clone());
+        let _ = sched::drive(&idle, fut, |_| true).await;
+    });
+    let (pulled, observed) = *res.lock().unwrap();
+    let c = cfg();
+    let beyond = pulled.saturating_sub(hs_len);
+    // 2 bytes per control frame; the frames the mux may hold (read_frame_count) + the ones in flight
+    // between its tasks (one being dispatched, one consumed by the stream task, the sub-stream held by
+    // the application: OPEN and CLOSE) + the header it is blocked on
+    let bound = 2 * (c.read_frame_count as u64 + 6);
+    let mut violation = None;
+    if !observed {
+        violation = Some("machinery: control-flood harness did not reach its observation point".to_string());
+    } else if beyond > bound {
+        violation = Some(format!("the multiplexer pulled {} control frames (OPEN / CLOSE) from a peer flooding {nframes} of them at a stream nobody serves; read_frame_count {} allows at most {} unconsumed frames", beyond / 2, c.read_frame_count, bound / 2));
+    }
+    ExecResult { obs: fx_hash(&pulled), violation, nontrivial: true, witnesses: vec![("mux_blocked_by_flow_control", (beyond > 0 && beyond < 2 * nframes as u64) as u64)] }
+}
+
 pub fn run(args: &Args) -> Report {
     let mut rep = Report::new("C14", "model_checking");
     let devs_of = |rp: &serde_json::Value| -> core::Deviations { rp["deviations"].as_array().map(|a| a.iter().map(|p| (p[0].as_u64().unwrap() as u32, p[1].as_u64().unwrap() as u32)).collect()).unwrap_or_default() };
@@ -309,6 +371,17 @@ pub fn run(args: &Args) -> Report {
             let sc = c["scenario"].as_u64().unwrap_or(1) as u32;
             core::replay_one(&|ch: &Ch| pair_run(ch, sc), devs_of(rp))
         } else {
+            if c["kind"] == "control-flood" {
+                let (n, a) = (c["nframes"].as_u64().unwrap_or(60) as usize, c["accept_first"].as_bool().unwrap_or(false));
+                let (res, div) = core::replay_one(&|ch: &Ch| control_flood_run(ch, n, a), devs_of(rp));
+                if let Some(d) = div {
+                    rep.machinery_errors.push(d);
+                }
+                if let Some(v) = res.violation {
+                    rep.violations.push(Violation { key: "replay".into(), what: v, replay: rp.clone() });
+                }
+                return rep;
+            }
             let i = c["flood"].as_u64().unwrap_or(0) as usize;
             let f = flood_cfgs[i];
             core::replay_one(&|ch: &Ch| flood_run(ch, f.0, f.1, f.2, f.3), devs_of(rp))
@@ -338,6 +411,16 @@ pub fn run(args: &Args) -> Report {
         capped |= st.capped;
         wit2 += *st.witnesses.get("two_streams_open_at_once").unwrap_or(&0);
         rep.absorb("c14", &st, json!({"kind": "pair", "scenario": sc}));
+        stats.push(st.to_json());
+    }
+    for (nframes, accept_first) in [(60usize, false), (60, true)] {
+        let cfgx = ExploreCfg::new(&format!("mux-control-flood[{nframes} OPEN/CLOSE frames, application accepts one: {accept_first}]"), args.tier.pick(1, 2), budget.saturating_sub(t0.elapsed()).min(Duration::from_secs(args.tier.pick(6, 120))));
+        let st = explore(&cfgx, |ch| control_flood_run(ch, nframes, accept_first));
+        execs += st.execs;
+        points += st.choice_points;
+        distinct += st.distinct_obs;
+        capped |= st.capped;
+        rep.absorb("c14", &st, json!({"kind": "control-flood", "nframes": nframes, "accept_first": accept_first}));
         stats.push(st.to_json());
     }
     for (i, f) in flood_cfgs.iter().enumerate() {
